@@ -247,7 +247,7 @@ pub const TEXT_FONTS: [&str; 6] = [
     "ascii::FONT_9X15_BOLD",
     "iso_8859_1::FONT_10X20",
     "ascii::FONT_6X13_ITALIC",
-    "jis_x0201::FONT_5X8",
+    "jis_x0201::FONT_6X13",
 ];
 
 pub fn text_strings() -> Vec<&'static str> {
